@@ -390,9 +390,9 @@ func c14(r *ev.Result, tier string) {
 		cases = append(cases, c14Case{N: 4096, FD: "stdout", ReadR: 0, Input: "empty", Status: sig})
 		cases = append(cases, c14Case{N: 8, FD: "stderr", ReadR: 8, Input: "open", Status: sig})
 	}
-	for _, n := range []int{32776, 65544, 200000} {
-		for _, p := range []int{300, 1200} {
-			if quick && 1200 == p {
+	for _, n := range []int{32776, 60000, 65544, 200000} {
+		for _, p := range []int{300, 1500} {
+			if quick && 1500 == p && 60000 != n {
 				continue
 			}
 			cases = append(cases, c14Case{N: n, FD: "stdout", ReadR: 8, Pause: p, Input: "empty", Status: 0})
